@@ -1223,7 +1223,9 @@ class GaussianState(State):
 
         np = self._connector.np
 
-        return np.real(2**self.d / np.sqrt(np.linalg.det(self.xxpp_covariance_matrix)))
+        return np.real(
+            1 / np.sqrt(np.linalg.det(self.xxpp_covariance_matrix / self._config.hbar))
+        )
 
     def purify(self) -> "GaussianState":
         """
